@@ -178,7 +178,21 @@ func VH08c_xbus() {
 	}
 	verif.Assert(verif.BytesEq(m.Body, body), lab+"/body-changed")
 	verif.Assert(len(m.Header) == 4, lab+"/raw-header-is-arrival-pipe-id")
-	// forward as a device does
+	// forward as a device does - or, as a bridge that hands one received message to several sockets does, take a
+	// second reference (Clone) and forward the message twice: both times the origin is skipped
+	twice := verif.Choice("cloned-and-forwarded-twice", 2) == 1
+	if twice {
+		m.Clone()
+		verif.Assert(sock.SendMsg(m) == nil, lab+"/forward-ok")
+		verif.Quiesce()
+		verif.Assert(len(pipes[src].Sent) == 0, lab+"/forwarded-back-to-origin")
+		for i, p := range pipes {
+			if i != src {
+				verif.Assert(len(p.Sent) == 1, lab+"/peer-missed-forwarded-message")
+				p.Sent = p.Sent[:0]
+			}
+		}
+	}
 	verif.Assert(sock.SendMsg(m) == nil, lab+"/forward-ok")
 	verif.Quiesce()
 	for i, p := range pipes {
